@@ -343,6 +343,19 @@ def corr_pred(res, games, kind_on_mismatch, label, which=("win", "draw", "rank")
     if hp:
         res.count("highprec_prediction_comparisons", len(games))
     outs = drv.run(lines)
+    if not hp:
+        # every 4th game also through the literal statement-by-statement models of the three predictions (ops P*LOOP): they must agree
+        # bit for bit with the closed-form model at Float (the equality theorems predict*Loop_eq assume `0 + x = x` for the first listed
+        # player's values, which Float, opaque to the kernel, exhibits only by running; it fails exactly for a first mu of -0.0)
+        sub = [(k_, g_) for k_, g_ in enumerate(games) if k_ % 4 == 0 and not any(t and t[0][0] == 0.0 and math.copysign(1.0, t[0][0]) < 0 for t in g_["teams"])]
+        llines = []
+        for _k, g_ in sub:
+            llines += [l.replace("PWIN", "PWINLOOP").replace("PDRAW", "PDRAWLOOP").replace("PRANK", "PRANKLOOP") for l in pred_lines(g_)]
+        louts = drv.run(llines) if llines else []
+        for j_, (k_, g_) in enumerate(sub):
+            res.count("literal_prediction_models_vs_closed_form_games")
+            if louts[3 * j_: 3 * j_ + 3] != outs[3 * k_: 3 * k_ + 3]:
+                res.fail("correspondence", "%s: the literal models of the predictions and the closed-form model differ at Float" % label, dict(type="pred", game=g_))
     for k, g in enumerate(games):
         inp = dict(type="pred", game=g)
         try:
